@@ -435,6 +435,12 @@ class Legacy(object):
             ivar, evar = s.target.elts[0].id, s.target.elts[1].id
         elif it == '%s.vin' % sc and isinstance(s.target, ast.Name):
             evar = s.target.id
+        elif it == 'range(len(%s.vout))' % sc and isinstance(s.target, ast.Name) and any(
+                isinstance(x, ast.Subscript) and norm(x.value) == '%s.vin' % sc and norm(x.slice) == s.target.id for x in ast.walk(s)):
+            # the inputs are indexed, but the loop is bounded by the number of OUTPUTS of the scratch copy
+            if S.get('outputs') == 'none' and not S.get('vout_list'):
+                return True  # the outputs were just emptied: the loop body never runs, no input is touched
+            return 'a loop that edits the inputs is bounded by the number of outputs (`%s`)' % it
         else:
             return None
         if s.orelse:
